@@ -87,6 +87,12 @@ def module_event(roots, envspec, policy, fw, layout, kw=None, I=None, want=(), i
     ev["keyfacts"] = {I(k): key_facts(k) for k in keys}
     for f in ev["keyfacts"].values():
         f["fold"] = I(f["fold"])
+    if res.get("names_before"):
+        # model names that are equal after case/punctuation folding collide as class names (fold-equal keys in different
+        # objects): the "folded-equal keys" known finding of C11 -> such inputs are out of the documented domain
+        folds = [key_facts(n or "")["fold"] for n in res["names_before"].values()]
+        if len(set(folds)) != len(folds):
+            ev["indomain"] = False
     if not res.exc:
         g, labels = LM.graph_with_names(res, I)
         ev["graph"], ev["labels"] = g, labels
@@ -166,7 +172,8 @@ def trace_of(tid, events, inp):
 WORDS = ["name", "value", "item", "user", "data", "list", "type", "class", "id", "count", "date", "time", "field", "attr",
          "optional", "any", "union", "dict", "model", "base", "from", "import", "none", "true", "pass", "self", "json",
          "literal", "schema", "object", "str", "int", "float", "print", "max", "def", "is", "in", "async", "field_", "état",
-         "größe", "naïve", "имя", "όνομα", "x", "a1", "b2c"]
+         "größe", "naïve", "имя", "όνομα", "x", "a1", "b2c", "schema_json", "parse_obj", "copy", "fields", "validate", "config",
+         "construct", "update_forward_refs", "from_orm", "metadata", "dataclass", "convert_strings"]
 
 
 def styled_key(rng):
@@ -365,7 +372,7 @@ def key_cases(chk, n):
                 tries += 1
                 k = wide_key(rng)
                 f = key_facts(k)
-                if not f["letter"] or f["lead"] == "under" or not f["fold"] or f["fold"] in folds or f["lead"] == "digit":
+                if not f["letter"] or f["lead"] in ("under", "other") or not f["fold"] or f["fold"] in folds:
                     continue
                 # leading punctuation is stripped by the label pipeline: keep the first letter-ish
                 folds.add(f["fold"])
